@@ -1,19 +1,35 @@
 /- GENERATED: instance obligations for one logic, discharged by kernel evaluation.
-   `X ⊆ known`: every failing row is a committed known finding (Ptx/Gen/Known.lean). -/
+   `S` = the logic with its DOCUMENTED tables (Ptx/Sem/Spec.lean); rules, closure, trunk and frames
+   are what the translator read off the code.  `X ⊆ known`: every failing row is a committed
+   known finding (Ptx/Gen/Known.lean, generated from known_findings.json). -/
 import Ptx.Gen.L_S5
 import Ptx.Gen.Known
 import Ptx.Sem.Subset
+import Ptx.Props.C01
+import Ptx.Gen.L_CFOL
 namespace Ptx.Gen.Obl.S5
 open Ptx
 
-theorem tables_total : Gen.S5.tablesTotalB = true := by decide +kernel
-theorem rules_exact : subsetB Gen.S5.badRules (Known.badRules "S5") = true := by decide +kernel
-theorem rules_sound : subsetB Gen.S5.unsoundRules (Known.unsoundRules "S5") = true := by decide +kernel
-theorem rules_total : subsetB Gen.S5.missingRules (Known.missingRules "S5") = true := by decide +kernel
-theorem rules_local : Gen.S5.nonLocalRules = [] := by decide +kernel
-theorem closure_total : Gen.S5.closureTotalB = true := by decide +kernel
-theorem closure_exact : subsetB Gen.S5.badClosure (Known.badClosure "S5") = true := by decide +kernel
-theorem read_total : Gen.S5.readTotalB = true := by decide +kernel
-theorem read_exact : subsetB Gen.S5.badRead (Known.badRead "S5") = true := by decide +kernel
+/-- a modal / first-order extension has exactly the truth-functional tables of its base (CFOL) -/
+theorem base_tables : Gen.S5.tables.sameTF Gen.CFOL.tables = true := by decide +kernel
+theorem spec_defined : Gen.S5.specDefinedB = true := by decide +kernel
+theorem tables_spec : subsetB Gen.S5.tableDiff (Known.tableDiff "S5") = true := by decide +kernel
+theorem defined_ops : Gen.S5.tables.definedOpsBad = [] := by decide +kernel
+theorem tables_total : Gen.S5.sem.tablesTotalB = true := by decide +kernel
+theorem rules_exact : subsetB Gen.S5.sem.badRules (Known.badRules "S5") = true := by decide +kernel
+theorem rules_sound : subsetB Gen.S5.sem.unsoundRules (Known.unsoundRules "S5") = true := by decide +kernel
+theorem rules_total : subsetB Gen.S5.sem.missingRules (Known.missingRules "S5") = true := by decide +kernel
+theorem rules_local : Gen.S5.sem.nonLocalRules = [] := by decide +kernel
+theorem closure_total : Gen.S5.sem.closureTotalB = true := by decide +kernel
+theorem closure_exact : subsetB Gen.S5.sem.badClosure (Known.badClosure "S5") = true := by decide +kernel
+theorem read_total : Gen.S5.sem.readTotalB = true := by decide +kernel
+theorem read_exact : subsetB Gen.S5.sem.badRead (Known.badRead "S5") = true := by decide +kernel
+theorem sound_core : Gen.S5.sem.soundCoreB = true := by decide +kernel
+
+/-- C01 for this logic: a closed tableau reached by any legal derivation has no countermodel. -/
+theorem c01_valid_sound (arg : Argument) (t : Tableau)
+    (hd : Deriv Gen.S5.sem.soundPart.noQuantPart (trunk Gen.S5.sem arg) t) (hclosed : t.allClosed = true)
+    (M : Struct) (hM : M.Interp Gen.S5.sem) (e : Env M.D) (w0 : M.W) : ¬ Countermodel Gen.S5.sem M e w0 arg :=
+  Props.C01.C01_valid_sound_partial Gen.S5.sem sound_core arg t hd hclosed M hM e w0
 
 end Ptx.Gen.Obl.S5
